@@ -189,10 +189,11 @@ Proof.
   cbn [StateInConstruction_choose_default_successor_maj_candidate_loop1 maj_go map convt fst snd].
   cbn [length] in Hk.
   destruct k as [|k].
-  - cbn [Z.of_nat Z.eqb Nat.eqb]. apply (IH x 1%nat). lia.
-  - replace (Z.eqb (Z.of_nat (S k)) 0) with false by lia. cbn [Nat.eqb].
+  - rewrite ?(Z.eqb_sym 0). cbn [Z.of_nat Z.eqb Nat.eqb]. apply (IH x 1%nat). lia.
+  - rewrite ?(Z.eqb_sym 0). replace (Z.eqb (Z.of_nat (S k)) 0) with false by lia. cbn [Nat.eqb].
+    rewrite ?(Nat.eqb_sym maj x).
     destruct (Nat.eqb x maj).
-    + cbv [i32_add i32_in bind].
+    + rewrite ?(Z.add_comm 1). cbv [i32_add i32_in bind].
       destruct ((-2147483648 <=? Z.of_nat (S k) + 1)%Z && (Z.of_nat (S k) + 1 <=? 2147483647)%Z) eqn:E; [|exfalso; lia].
       replace (Z.of_nat (S k) + 1)%Z with (Z.of_nat (S (S k))) by lia. apply IH. lia.
     + cbv [i32_sub i32_in bind].
@@ -221,7 +222,7 @@ Proof.
   induction l as [|[c x] l IH]; intros m n.
   - cbn. rewrite Nat.add_0_r. reflexivity.
   - cbn [StateInConstruction_choose_default_successor_count_loop1 map convt fst snd].
-    change (convt (c, x)) with (conv c, x). rewrite count_target_cons. destruct (Nat.eqb x m); rewrite IH; do 2 apply f_equal; lia.
+    change (convt (c, x)) with (conv c, x). rewrite count_target_cons. rewrite ?(Nat.eqb_sym m x). destruct (Nat.eqb x m); rewrite IH; do 2 apply f_equal; lia.
 Qed.
 Lemma link_count l m :
   M_StateInConstruction_choose_default_successor_count l m = Some (count_target (map convt l) m).
@@ -237,26 +238,84 @@ Proof.
   destruct (Q x); cbn [map]; rewrite IH; reflexivity.
 Qed.
 
+(* ---- canonical forms of the loop-free functions (generic proofs: unfold, rewrite the callees' forms,
+   case analysis innermost first) ---- *)
+Ltac gcase :=
+  match goal with
+  | |- context [match ?x with _ => _ end] =>
+      lazymatch x with
+      | context [match _ with _ => _ end] => fail
+      | _ => first [ is_var x; destruct x | destruct x eqn:? ]
+      end
+  end.
+Ltac gnorm := cbv [bind option_map negb andb orb]; cbn [fst snd length StateInConstruction_is_final StateInConstruction_default_successor StateInConstruction_transitions].
+Ltac gfin := first [ reflexivity | congruence | (exfalso; lia) | solve [repeat (f_equal; try lia)] ].
+Ltac gauto := gnorm; repeat (gcase; gnorm); gfin.
+
+Lemma canon_set_default_successor s j :
+  M_StateInConstruction_set_default_successor s j =
+  Some (StateInConstruction_mk (StateInConstruction_is_final s) (Some j) (StateInConstruction_transitions s)).
+Proof. unfold M_StateInConstruction_set_default_successor, StateInConstruction_set_default_successor. gauto. Qed.
+Lemma canon_add_transition s c j :
+  M_StateInConstruction_add_transition s c j =
+  Some (StateInConstruction_mk (StateInConstruction_is_final s) (StateInConstruction_default_successor s)
+                               (StateInConstruction_transitions s ++ [(c, j)])).
+Proof. unfold M_StateInConstruction_add_transition, StateInConstruction_add_transition. gauto. Qed.
+
+Definition choose_spec (s : StateInConstruction) : StateInConstruction :=
+  match StateInConstruction_default_successor s, StateInConstruction_transitions s with
+  | None, (c0, x0) :: t =>
+      let m := maj_go (map convt t) x0 1 in
+      if Nat.leb (length (StateInConstruction_transitions s) / 2) (count_target (map convt (StateInConstruction_transitions s)) m)
+      then StateInConstruction_mk (StateInConstruction_is_final s) (Some m) (StateInConstruction_transitions s)
+      else s
+  | _, _ => s
+  end.
+Lemma canon_choose s : (Z.of_nat (length (StateInConstruction_transitions s)) < 2147483647)%Z ->
+  M_StateInConstruction_choose_default_successor s = Some (choose_spec s).
+Proof.
+  destruct s as [f d tr]. cbn [StateInConstruction_transitions]. intros Hl.
+  unfold M_StateInConstruction_choose_default_successor, StateInConstruction_choose_default_successor, choose_spec.
+  destruct tr as [|[c0 x0] t]; cbn [StateInConstruction_is_final StateInConstruction_default_successor StateInConstruction_transitions].
+  - gauto.
+  - cbn [length] in Hl. rewrite ?link_maj_candidate by lia. rewrite ?link_count, ?canon_set_default_successor.
+    gnorm. rewrite ?link_count, ?canon_set_default_successor.
+    repeat (gcase; gnorm; rewrite ?link_count, ?canon_set_default_successor); gfin.
+Qed.
+Definition remove_spec (s : StateInConstruction) : StateInConstruction :=
+  match StateInConstruction_default_successor s with
+  | Some i => StateInConstruction_mk (StateInConstruction_is_final s) (StateInConstruction_default_successor s)
+                (filter (fun x => negb (Nat.eqb (snd x) i)) (StateInConstruction_transitions s))
+  | None => s
+  end.
+Lemma canon_remove s : M_StateInConstruction_remove_transitions_to_default s = Some (remove_spec s).
+Proof.
+  unfold M_StateInConstruction_remove_transitions_to_default, StateInConstruction_remove_transitions_to_default, remove_spec.
+  gauto.
+Qed.
+Lemma canon_cleanup s : (Z.of_nat (length (StateInConstruction_transitions s)) < 2147483647)%Z ->
+  M_StateInConstruction_cleanup s = Some (remove_spec (choose_spec s)).
+Proof.
+  intros Hl. unfold M_StateInConstruction_cleanup, StateInConstruction_cleanup.
+  rewrite ?(canon_choose s Hl). gnorm. rewrite ?canon_remove. gauto.
+Qed.
+
 (* cleanup() never panics when the state has fewer than 2^31 - 1 transitions (the i32 vote counter
    cannot overflow) and is the model's cleanup *)
 Lemma link_cleanup s : (Z.of_nat (length (StateInConstruction_transitions s)) < 2147483647)%Z ->
   option_map convs (M_StateInConstruction_cleanup s) = Some (cleanup (convs s)).
 Proof.
-  destruct s as [f d tr]. cbn [StateInConstruction_transitions]. intros Hl.
-  unfold M_StateInConstruction_cleanup, StateInConstruction_cleanup,
-    M_StateInConstruction_choose_default_successor, StateInConstruction_choose_default_successor,
-    M_StateInConstruction_remove_transitions_to_default, StateInConstruction_remove_transitions_to_default,
-    M_StateInConstruction_set_default_successor, StateInConstruction_set_default_successor, cleanup, convs.
+  intros Hl. rewrite (canon_cleanup s Hl). cbn [option_map]. f_equal.
+  destruct s as [f d tr]. unfold choose_spec, remove_spec, cleanup, convs.
   cbn [StateInConstruction_is_final StateInConstruction_default_successor StateInConstruction_transitions
        s_default s_trans s_final].
   destruct d as [d|].
-  - cbn [andb bind option_map]. cbn [StateInConstruction_is_final StateInConstruction_default_successor StateInConstruction_transitions].
+  - cbn [StateInConstruction_is_final StateInConstruction_default_successor StateInConstruction_transitions].
     rewrite <- (filter_convt (fun y => negb (Nat.eqb y d))). reflexivity.
   - destruct tr as [|[c0 x0] t]; [reflexivity|].
-    cbn [andb negb map convt fst snd]. cbn [length] in Hl.
-    rewrite link_maj_candidate by lia. cbn [bind]. rewrite link_count. cbn [bind].
+    cbn [map convt fst snd].
     change (convt (c0, x0) :: map convt t) with (map convt ((c0, x0) :: t)). rewrite map_length.
-    destruct (Nat.leb _ _); cbn [bind option_map StateInConstruction_is_final StateInConstruction_default_successor StateInConstruction_transitions];
+    destruct (Nat.leb _ _); cbn [StateInConstruction_is_final StateInConstruction_default_successor StateInConstruction_transitions];
       [rewrite <- (filter_convt (fun y => negb (Nat.eqb y _)))|]; reflexivity.
 Qed.
 
@@ -270,8 +329,10 @@ Proof. induction l as [|[c x] l IH]; [reflexivity|]. cbn [map convt fst]. rewrit
 Lemma link_make_partition s : labels_valid s ->
   try_res (M_StateInConstruction_make_partition s) = Some (ptry_from_list (map fst (s_trans (convs s)))).
 Proof.
-  intros Hv. unfold M_StateInConstruction_make_partition, StateInConstruction_make_partition.
-  rewrite link_try_from_iter by exact Hv. rewrite map_fst_convt. reflexivity.
+  intros Hv. assert (E : M_StateInConstruction_make_partition s
+                         = M_CharPartition_try_from_iter (map (fun x : CharSet * nat => fst x) (StateInConstruction_transitions s))).
+  { unfold M_StateInConstruction_make_partition, StateInConstruction_make_partition. gauto. }
+  rewrite E, link_try_from_iter by exact Hv. rewrite map_fst_convt. reflexivity.
 Qed.
 
 (* ---- make_successor ---- *)
@@ -349,16 +410,16 @@ Qed.
 
 (* ---- the builder's elementary updates of a state ---- *)
 Lemma link_new : option_map convs M_StateInConstruction_new = Some sic_new.
-Proof. reflexivity. Qed.
+Proof. unfold M_StateInConstruction_new, StateInConstruction_new. reflexivity. Qed.
 Lemma link_set_default_successor s j :
   option_map convs (M_StateInConstruction_set_default_successor s j)
   = Some {| s_final := s_final (convs s); s_default := Some j; s_trans := s_trans (convs s) |}.
-Proof. destruct s as [f d tr]. reflexivity. Qed.
+Proof. rewrite canon_set_default_successor. reflexivity. Qed.
 Lemma link_add_transition s c j :
   option_map convs (M_StateInConstruction_add_transition s c j)
   = Some {| s_final := s_final (convs s); s_default := s_default (convs s); s_trans := s_trans (convs s) ++ [(conv c, j)] |}.
 Proof.
-  destruct s as [f d tr]. unfold M_StateInConstruction_add_transition, StateInConstruction_add_transition, convs.
+  rewrite canon_add_transition. unfold convs.
   cbn [option_map StateInConstruction_is_final StateInConstruction_default_successor StateInConstruction_transitions s_final s_default s_trans].
   rewrite map_app. reflexivity.
 Qed.
